@@ -200,5 +200,46 @@ def bounded(seed: int = 0, **_: Any) -> Dict[str, Any]:
             sys.path.remove(str(root / "python"))
             for m in [m for m in sys.modules if m == module or m.startswith(module + ".")]:
                 del sys.modules[m]
+    cases += 1
+    why = _namespace_case()
+    if why is not None:
+        failures.append({"property": "C10", "case": "XML namespace with an ampersand", "observed": why})
     return {"cases": cases, "distinct": cases, "failures": failures[:6], "exhaustive": False,
             "samples": [{"classes": 4, "instances": len(CASES)}]}
+
+
+def _namespace_case() -> Any:
+    """A meta-model whose XML namespace contains ``&`` (a URL with a query): the SDK must read what it writes."""
+    text = MODEL.replace('__xml_namespace__ = "https://dummy.com"', '__xml_namespace__ = "https://dummy.com/aas?a=1&b=2"')
+    with tempfile.TemporaryDirectory() as d:
+        root = pathlib.Path(d)
+        (root / "snippets").mkdir()
+        module = f"c10xns{abs(hash(d)) % 10 ** 8}"
+        (root / "snippets" / "qualified_module_name.txt").write_text(module, encoding="utf-8")
+        (root / "meta_model.py").write_text(text, encoding="utf-8")
+        (root / "python").mkdir()
+        stdout, stderr = io.StringIO(), io.StringIO()
+        try:
+            rc = cg_main.execute(cg_main.Parameters(model_path=root / "meta_model.py", target=cg_main.Target.PYTHON,
+                                                    snippets_dir=root / "snippets", output_dir=root / "python",
+                                                    cache_model=False), stdout=stdout, stderr=stderr)
+        except BaseException as e:  # noqa
+            return f"the python generator raised {type(e).__name__}"
+        if rc != 0:
+            return None  # the generator refuses such a namespace: fine
+        sys.path.insert(0, str(root / "python"))
+        try:
+            T = importlib.import_module(f"{module}.types")
+            X = importlib.import_module(f"{module}.xmlization")
+            doc = X.to_str(T.Measurement(lower=1, upper=2, label="m"))
+            try:
+                back = X.measurement_from_str(doc)
+            except BaseException as e:  # noqa
+                return f"the SDK cannot read the document it wrote ({type(e).__name__}: {str(e)[:80]}): {doc[:90]}"
+            if vars(back) != dict(lower=1, upper=2, label="m"):
+                return f"the round trip changed the instance: {vars(back)}"
+        finally:
+            sys.path.remove(str(root / "python"))
+            for m in [m for m in sys.modules if m == module or m.startswith(module + ".")]:
+                del sys.modules[m]
+    return None
